@@ -433,6 +433,10 @@ def run(ctx):
     # ================================================================= D4 shift estimator: no division by an unchecked zero norm
     _check_shift_estimator(ctx, prog)
 
+    # the reflectors all per-column QR sweeps and the Hessenberg pre-reduction are built from (shared with C08 / C09)
+    from .c08 import _check_householder
+    _check_householder(ctx, prog, RULE="C10.D5.reflector")
+
     ctx.require_instances("C10.D1.similarity", 20)
     ctx.require_instances("C10.D1.composition", 20)
     ctx.require_instances("C10.D2.deflation", 20)
